@@ -143,6 +143,42 @@ class LexShape:
             return
         idx["row"], idx["col"] = row, col
         self.idx = idx
+        # flags with a resting value between characters, by role (no field names):
+        #  * constructed `true`: the one-shot "restart with the current character" flag (A7 checks that every exit restores it)
+        #  * the end-of-input flag: constructed `false`, set `true` by a method that then feeds the consumer a constant character
+        self.rest_true, self.end_flag = set(), None
+        for f in self.methods:
+            for b in f["mir"]["blocks"]:
+                for st_ in b["stmts"]:
+                    if st_["k"] == "Assign" and st_["rv"]["k"] == "Aggregate" and st_["rv"].get("agg") == "Adt" and (st_["rv"].get("adt") or "") == self.struct:
+                        asg_ = mirq.assignments(f["mir"])
+                        for i, o in enumerate(st_["rv"].get("ops", [])):
+                            if i not in self.bools:
+                                continue
+                            vals = set()
+                            if "const" in o:
+                                vals.add(o["const"].get("int"))
+                            else:
+                                l_ = mirq.op_local(o)
+                                for og in (mirq.origins(f["mir"], l_, asg_) if l_ is not None else []):
+                                    if og[1] != "term" and og[2].get("k") == "Use" and "const" in og[2]["op"]:
+                                        vals.add(og[2]["op"]["const"].get("int"))
+                                    else:
+                                        vals.add(None)
+                            if vals == {1}:
+                                self.rest_true.add(i)
+        for f in self.methods:
+            if f is self.consumer or f is self.starter:
+                continue
+            feeds_const = any(b["term"]["k"] == "Call" and (b["term"].get("def") == self.consumer["path"]) and len(b["term"]["args"]) == 2 and "const" in b["term"]["args"][1] for b in f["mir"]["blocks"])
+            if not feeds_const:
+                continue
+            for b in f["mir"]["blocks"]:
+                for st_ in b["stmts"]:
+                    if st_["k"] == "Assign" and st_["rv"]["k"] == "Use" and "const" in st_["rv"]["op"] and st_["rv"]["op"]["const"].get("int") == 1:
+                        fi, whole = self.field_of(st_["place"])
+                        if fi in self.bools and whole and fi not in self.rest_true:
+                            self.end_flag = fi
         self.key = lambda role: "_1.*.%d" % idx[role]
         self.tracked = set("_1.*.%d" % i for i in [idx["state"], idx["result"]] + self.bools)
 
@@ -369,7 +405,8 @@ class Step:
                 return [(TOP, (live, emitted + live, lastc, row_inc, col_inc, col_reset, notes), None)]
             return [(TOP, (live, emitted, lastc, row_inc, col_inc, col_reset, notes), None)]
         g_ = self.F.fns.get(d)
-        if g_ is not None and g_ in sh.methods and d != sh.consumer["path"] and g_["mir"]["argc"] >= 1 and g_["mir"]["locals"][1]["ty"].startswith("&mut "):
+        if g_ is not None and g_ in sh.methods and d != sh.consumer["path"] and d not in sh.walks and g_["mir"]["argc"] >= 1 and (
+                g_["mir"]["locals"][1]["ty"].startswith("&mut ") or (g_["mir"]["locals"][1]["ty"].startswith("&") and g_["mir"]["locals"][0]["ty"] == "bool")):
             return self.inline_method(interp, env, ts, t, args, g_)
         if d in sh.walks:
             # the trie walk over the buffer: a buffer holding a character of no operator spelling reaches no node
@@ -498,10 +535,9 @@ def run_step(sh, state, code, alphabet, at_end=False):
         init["_1.*.%d" % b] = TOP
     # the two flags with a documented resting value between characters
     for b in sh.bools:
-        nm = sh.fields[b]["name"]
-        if nm == "should_create":
+        if b in sh.rest_true:
             init["_1.*.%d" % b] = const(1)
-        if nm == "at_end":
+        if b == sh.end_flag:
             init["_1.*.%d" % b] = const(1 if at_end else 0)
     init = {k: v for k, v in init.items() if v is not TOP}
     it = ai.Interp(sh.consumer, hooks={"on_assign": st.on_assign, "on_call": st.on_call, "on_switch": Step.on_switch, "track": lambda k: ".*" not in k or k in sh.tracked or any(k.startswith(x + ".") for x in sh.tracked)},
@@ -516,7 +552,7 @@ def run_step(sh, state, code, alphabet, at_end=False):
             slot = v[1]
         elif env.get(rk + ".#"):
             slot = env[rk + ".#"][1]
-        sc = env.get("_1.*.%d" % [b for b in sh.bools if sh.fields[b]["name"] == "should_create"][0]) if any(sh.fields[b]["name"] == "should_create" for b in sh.bools) else None
+        sc = env.get("_1.*.%d" % sorted(sh.rest_true)[0]) if sh.rest_true else None
         exits.add((slot, ts[0], ts[1], ts[3], ts[4], ts[5], ts[6], sc))
     return exits, st.viol, it.visited
 
